@@ -824,6 +824,9 @@ fn decode_font(bytes: &[u8], masters: &[Vec<f64>]) -> Result<OFont, String> {
                 for fi in ls.feature_indices() {
                     let fr = fl.feature_records().get(fi.get() as usize).ok_or("feature index out of range")?;
                     let tag = fr.feature_tag().to_string();
+                    if std::env::args().any(|a| a == "--dump") {
+                        eprintln!("  script {} feature {} lookups {:?}", sr.script_tag(), tag, fr.feature(fl.offset_data()).map(|f| f.lookup_list_indices().iter().map(|x| x.get()).collect::<Vec<_>>()).unwrap_or_default());
+                    }
                     if !FEATURES.contains(&tag.as_str()) {
                         continue;
                     }
